@@ -121,7 +121,9 @@ def declare(reg):
         C, "Authenticated.do_select",
         params={"self": "ref:Authenticated", "cmd": "ref:IMAPClientCommand", "examine": "bool"}, ret="opt[str]",
         requires={"from-parser": "cmd.mailbox_name == '' or safe_rel(rel_name(cmd.mailbox_name))",
-                  "has-server": "not is_none(self.server)"},
+                  "has-server": "not is_none(self.server)",
+                  # a session is registered with a mailbox only while it has that mailbox selected (established by selected()/unselected(), do_close, do_unselect)
+                  "registered-only-where-selected": "forall(lambda m: implies(self.client.name in m.clients, self.state == ClientState.SELECTED and not is_none(self.mbox) and some(self.mbox) == m), 'ref:Mailbox')"},
         ensures={
             # what the session is told on a successful SELECT is exactly the snapshot selected() took
             "selected-state": "implies(not is_none(result), self.state == ClientState.SELECTED and not is_none(self.mbox) and self.examine == examine)",
@@ -139,6 +141,9 @@ def declare(reg):
             "call_asserts": {"selected": {
                 # replaying the new view starts from this snapshot: nothing queued for the previous selection may survive into it
                 "queue-empty-at-snapshot": "arg_client == self and len(self.pending_notifications) == 0",
+                # ... and while this SELECT waited for its turn the session was registered nowhere (re-SELECT of the same mailbox included): no
+                # notification computed against the old view can have been queued for it behind the `pending_notifications = []` above
+                "registered-nowhere-while-waiting": "forall(lambda m: self.client.name not in m.clients, 'ref:Mailbox')",
             }},
         },
         is_async=True,
@@ -168,6 +173,13 @@ def declare(reg):
     # ---- the gate of the sequence-numbered commands (C01): no EXPUNGE reaches a session while its non-UID FETCH / STORE / SEARCH runs ----
     HAS_EXP = f"exists(lambda j: 0 <= j and j < len(old({PN})) and 'EXPUNGE' in old({PN})[j])"
     NEWOUT = "len(old(self.client.g_out)) <= i and i < len(self.client.g_out)"
+    # C05 (e): a session that opened the mailbox with EXAMINE changes no flag -- STORE never reaches the mailbox, and a body fetch is a peek
+    EXTRA = {
+        "do_store": {"read-only-session-never-stores": "not self.examine"},
+        "do_fetch": {"read-only-session-only-peeks": "implies(self.examine, cmd.fetch_peek and forall(lambda j: implies(0 <= j and j < len(cmd.fetch_atts), cmd.fetch_atts[j].peek)))"},
+        "do_search": {},
+    }
+    MODS = {"do_fetch": ["FetchAtt.peek", "cmd.fetch_peek"], "do_store": [], "do_search": []}
     for fn in ("do_fetch", "do_store", "do_search"):
         reg.contract(
             C, f"Authenticated.{fn}", params={"self": "ref:Authenticated", "cmd": "ref:IMAPClientCommand"},
@@ -175,16 +187,18 @@ def declare(reg):
             # refused with NO: nothing was sent, nothing dropped from the queue
             exc_ensures={"refusal-sends-nothing": f"implies(raised('No') and (not cmd.uid_command) and self.state == ClientState.SELECTED and not is_none(self.mbox) and {HAS_EXP}, "
                                                   f"same(self.client.g_out, old(self.client.g_out)) and same({PN}, old({PN})))"},
-            modifies=["self.pending_notifications", "self.fetch_while_pending_count", "ClientProxy.g_out"],
+            modifies=["self.pending_notifications", "self.fetch_while_pending_count", "ClientProxy.g_out"] + MODS[fn],
+            loops=({0: {"invariant": {"peeks-so-far": "forall(lambda j: implies(0 <= j and j < _i, _it[j].peek))"}}} if fn == "do_fetch" else {}),
             ghost={"cut": {"before_with": r"cmd\.ready_and_okay\(self\.mbox\)", "asserts": {
                 # the command proper starts only when no EXPUNGE is queued for this session ...
                 "no-expunge-queued-when-it-runs": f"implies(not cmd.uid_command, forall(lambda j: implies(0 <= j and j < len({PN}), 'EXPUNGE' not in {PN}[j])))",
                 # ... and, for the sequence-numbered form, none has been sent on the way in either
                 "no-expunge-sent-on-entry": f"implies(not cmd.uid_command, forall(lambda i: implies({NEWOUT}, 'EXPUNGE' not in self.client.g_out[i])))",
                 "selected": "self.state == ClientState.SELECTED and not is_none(self.mbox)",
+                **EXTRA[fn],
             }}},
             is_async=True,
-            props=["C01"],
+            props=["C01", "C05"] if EXTRA[fn] else ["C01"],
             note="verified up to the point where the command queues on the mailbox (cut at `async with cmd.ready_and_okay(self.mbox)`): the gate in front of the command body",
         )
 
